@@ -25,7 +25,7 @@
    the theorems of section 3 are about the message-set decoder, the primitive readers and counted loops. *)
 From Coq Require Import Sorted.
 From AV Require Import Base.Util Model.Prim Model.Crc Model.MsgSet Model.FetchGrow Model.Responses
-     Proofs.PrimFacts Proofs.CrcBurst Proofs.DecodeTotal Proofs.Truncation Proofs.C12Wrappers Proofs.FetchGrowFacts Proofs.C12Resp.
+     Proofs.PrimFacts Proofs.CrcBurst Proofs.DecodeTotal Proofs.Truncation Proofs.C12Wrappers Proofs.C12Hops Proofs.FetchGrowFacts Proofs.C12Resp.
 
 (* ================================================================== 1. CRC-32 error detection *)
 
@@ -231,6 +231,30 @@ Theorem C12_loop_never_out_of_fuel : forall rec orc n data read ys,
   exists msg offset ys', dec_message rec orc msg offset = (ys', Some Fuel).
 Proof. exact dec_loop_no_fuel. Qed.
 Print Assumptions C12_loop_never_out_of_fuel.
+
+(* ---- nested compression, ANY depth.  Every nesting level is a pair of Python generators, so a message found k wrappers
+   deep is handed over 2k..4k times before the caller sees it; the entry count above does not see that.  [hops] counts
+   every hand-over of one message by one generator level (plain message 1; wrapper: hops of the inner set + 3 per inner
+   message; set loop: 1 per message per entry - Proofs/C12Hops.v).  For every nesting budget, oracle and byte string:
+   hops <= 4 * depth * entries, hence 3 * hops <= depth * (input bytes + ALL decompressed bytes over all levels).
+   Linear for every fixed depth, with the depth as an explicit factor; the only limit on the depth in CPython is the
+   recursion limit (RecursionError near 320 wrappers), Kafka itself permits one level. *)
+Theorem C12_hops_linear_per_depth : forall depth orc data,
+  fst (fst (dec_set_h depth orc data)) = dec_set depth orc data /\
+  (hops depth orc data <= 4 * depth * entries_read depth orc data)%nat /\
+  (3 * hops depth orc data <= depth * (length data + total_length (oracle_outputs depth orc data)))%nat.
+Proof. exact hops_linear_per_depth. Qed.
+Print Assumptions C12_hops_linear_per_depth.
+
+(* REFUTED: a bound without the depth factor.  40 levels (each decompressing to 27 bytes) around 40 empty messages, with
+   a compressing oracle: all 40 messages are delivered, input + all decompressed bytes = 2120, hops = 6480.  "messages x
+   depth" is not bounded by the decompressed volume: the outer levels are tiny, yet every message travels through all *)
+Theorem C12_hops_depth_free_bound_refuted :
+  exists depth orc data,
+    (length (fst (dec_set depth orc data)) = 40)%nat /\ snd (dec_set depth orc data) = None /\
+    (length data + total_length (oracle_outputs depth orc data) < hops depth orc data)%nat.
+Proof. exact hops_depth_free_bound_refuted. Qed.
+Print Assumptions C12_hops_depth_free_bound_refuted.
 
 (* ---- primitive readers (read_short_bytes: f = Fh, read_int_string: f = Fi) *)
 Theorem C12_reader_negative_length : forall f data n r,
